@@ -173,6 +173,18 @@ def build_design(seed):
             if d is not None and rng.random() < 0.7:        # make sure the domain is really used
                 m.d[d] += per_dom[d][0].eq(per_dom[d][0] + 1)
             first = False
+        # named signals with attributes aliasing the same nets (their attributes are merged on one wire's nets)
+        if rng.random() < 0.35 and readable:
+            src = rng.choice(readable)
+            chain = []
+            for j in range(rng.randint(2, 3)):
+                attrs = {rng.choice(["mark", "keep", "syn_keep", "mark" + str(j)]): rng.choice(["yes", 1, "x" * j])}
+                chain.append(Signal(src.shape(), name=fresh_name(), attrs=attrs))
+            m.d.comb += chain[0].eq(src + 1 if rng.random() < 0.6 else src)
+            for a, b in zip(chain, chain[1:]):
+                m.d.comb += b.eq(a)
+            combT.extend(chain)
+            hist["attr_alias_chain"] = hist.get("attr_alias_chain", 0) + 1
         # references to clock and reset signals of domains
         for d in domains:
             if rng.random() < 0.25:
@@ -326,6 +338,25 @@ def convert_once(seed):
         return "error", f"{common.errkind(e)}: {e}"
 
 
+def convert_same_twice(seed):
+    """build the design of `seed` once and convert that same object twice"""
+    import warnings
+    warnings.simplefilter("ignore")
+    from amaranth.back import rtlil
+    try:
+        top, kwargs, _meta = build_design(seed)
+    except Exception as e:  # noqa: BLE001
+        r = ("build-error", f"{common.errkind(e)}: {e}")
+        return r, r
+    out = []
+    for _ in range(2):
+        try:
+            out.append(("ok", rtlil.convert(top, **kwargs)))
+        except Exception as e:  # noqa: BLE001
+            out.append(("error", f"{common.errkind(e)}: {e}"))
+    return out[0], out[1]
+
+
 def child_main():
     """runs in a fresh interpreter: argv = mode, design seeds...; prints one JSON line"""
     mode = sys.argv[1]
@@ -347,13 +378,14 @@ def child_main():
         sys.stdout.write(json.dumps({"hashseed": os.environ.get("PYTHONHASHSEED"), "results": out}) + "\n")
         return
     for s in seeds:
-        k1, t1 = convert_once(s)
-        k2, t2 = convert_once(s)
-        rec = {"seed": s, "kind": [k1, k2],
-               "sha": [hashlib.sha256(t1.encode()).hexdigest(), hashlib.sha256(t2.encode()).hexdigest()],
+        # the design object converted twice (conversion must not change the design), then rebuilt and converted
+        (k1, t1), (k2, t2) = convert_same_twice(s)
+        k3, t3 = convert_once(s)
+        rec = {"seed": s, "kind": [k1, k2, k3],
+               "sha": [hashlib.sha256(t.encode()).hexdigest() for t in (t1, t2, t3)],
                "lines": t1.count("\n")}
         if mode == "text":
-            rec["text"] = [t1, t2]
+            rec["text"] = [t1, t2, t3]
         out.append(rec)
     sys.stdout.write(json.dumps({"hashseed": os.environ.get("PYTHONHASHSEED"), "results": out}) + "\n")
 
@@ -427,14 +459,14 @@ def stream_diff(chk, n_designs, hashseeds, chunk):
             _top, _kw, meta = build_design(s)
         except Exception as e:  # noqa: BLE001
             meta = {"seed": s, "implicit": [], "style": "build-error:" + common.errkind(e)}
-        chk.count(2 * len(per))
+        chk.count(3 * len(per))
         chk.hist("diff: implicit domains", len(meta.get("implicit", [])))
         chk.hist("diff: port style", meta.get("style"))
         chk.hist("diff: outcome", per[hashseeds[0]]["kind"][0])
         chk.distinct(("diff", s), nontrivial=len(meta.get("implicit", [])) >= 2)
         shas = {}
         for h in hashseeds:
-            for k in (0, 1):
+            for k in range(len(per[h]["sha"])):
                 shas.setdefault(per[h]["sha"][k], []).append((h, k))
         if len(shas) == 1:
             chk.sample({"stream": "diff", "design_seed": s, "implicit": meta.get("implicit"), "style": meta.get("style"),
@@ -443,7 +475,7 @@ def stream_diff(chk, n_designs, hashseeds, chunk):
             continue
         n_diff += 1
         groups = sorted(shas.values(), key=lambda g: (-len(g), g))
-        same_interp = any(per[h]["sha"][0] != per[h]["sha"][1] for h in hashseeds)
+        same_interp = any(len(set(per[h]["sha"])) > 1 for h in hashseeds)
         differing.append((s, meta, groups[0][0], groups[1][0], len(shas), same_interp))
     # fetch the texts of the differing designs (one child per hash seed, in parallel)
     want = {}
@@ -468,7 +500,7 @@ def stream_diff(chk, n_designs, hashseeds, chunk):
         chk.hist("diff: differing designs", ",".join(classes) or "unclassified")
         report(chk,
                f"rtlil.convert of design seed {s} differs between PYTHONHASHSEED={ha} (run {ka + 1}) and {hb} (run {kb + 1}): "
-               f"{n_texts} distinct texts over {len(hashseeds)} seeds x 2; first difference at line {line}: {xa.strip()!r} / {xb.strip()!r}",
+               f"{n_texts} distinct texts over {len(hashseeds)} seeds x 3 conversions (1, 2: the same object; 3: rebuilt); first difference at line {line}: {xa.strip()!r} / {xb.strip()!r}",
                {"stream": "diff", "design_seed": s, "meta": meta, "hashseed_a": ha, "hashseed_b": hb, "line": line,
                 "line_a": xa, "line_b": xb, "distinct_texts": n_texts, "differs_within_one_interpreter": same_interp,
                 "replay": f"PYTHONHASHSEED={ha} vs {hb}: cd /verif && /venv/bin/python -c \"from harness.checks import c09; "
